@@ -1,9 +1,163 @@
 import Driver.Json
-open Lean Drv
+import Model.Mpi
+open Lean Drv Ens Ens.Mpi
 
 namespace Drv.C14
 
-def handle (op : String) (_req : Json) : Except String Json :=
-  throw s!"bad-op C14.{op}"
+def errStr : Err → String
+  | .indexError => "index-error"
+  | .valueError => "value-error"
+  | .improperlyConfigured => "improperly-configured"
+  | .assertion => "assertion"
+  | .dataInvalid => "data-invalid"
+  | .attributeError => "attribute-error"
+  | .notImplemented => "not-implemented"
+  | .nan => "nan"
+  | .fuel => "fuel"
+
+def outE {α} (f : α → Json) : Except Err α → Json
+  | .ok a => okJson (f a)
+  | .error e => errJson (errStr e)
+
+def getPair (j : Json) : Except String (Nat × Nat) := do
+  match ← getArr j with
+  | [a, b] => pure (← getNat a, ← getNat b)
+  | _ => throw "pair expected"
+
+def pairJson (p : Nat × Nat) : Json := Json.arr #[natJson p.1, natJson p.2]
+
+def getDist (j : Json) : Except String Dist :=
+  match j with
+  | .null => pure .inf
+  | v => do pure (.fin (← getRat v))
+
+def distJson : Dist → Json
+  | .inf => Json.null
+  | .fin q => ratJson q
+
+/-- per-rank lists as a function of the rank (ranks `≥ w` are never consulted) -/
+def perRank {α} (l : List (List α)) : Nat → List α := fun r => l.getD r []
+
+/-- a validated square table as a function -/
+def tableFn (n : Nat) (t : List (List Dist)) : Except String (Nat → Nat → Dist) := do
+  if t.length ≠ n ∨ t.any (fun row => row.length ≠ n) then throw "table is not n x n"
+  let a := (t.map List.toArray).toArray
+  pure fun f c => (a.getD f #[]).getD c .inf
+
+def getK (req : Json) : Except String (Option Nat) :=
+  match fieldOpt req "k" with
+  | none => pure none
+  | some j => do pure (some (← getNat j))
+
+def handle (op : String) (req : Json) : Except String Json := do
+  match op with
+  | "stripe" =>
+    let w ← getNat (← field req "w")
+    let n ← getNat (← field req "n")
+    let r ← getNat (← field req "r")
+    if w = 0 then throw "w = 0"
+    pure (okJson (listJson natJson (stripeIdx w n r)))
+  | "assemble_array" =>
+    let parts ← getList (getList getInt) (← field req "parts")
+    if parts.length = 0 then throw "w = 0"
+    pure (outE (listJson intJson) (assembleStripedArray parts.length (perRank parts)))
+  | "assemble_ragged" =>
+    let w ← getNat (← field req "w")
+    let L ← getList getNat (← field req "L")
+    let locals ← getList getArr (← field req "locals")
+    if w = 0 ∨ locals.length ≠ w then throw "bad w"
+    pure (outE (listJson id) (assembleStripedRagged w L (perRank locals)))
+  | "local_frames" =>
+    let w ← getNat (← field req "w")
+    let L ← getList getNat (← field req "L")
+    if w = 0 then throw "w = 0"
+    pure (okJson (listJson (listJson natJson) ((List.range w).map (localFrames w L))))
+  | "convert_local" =>
+    let w ← getNat (← field req "w")
+    let L ← getList getNat (← field req "L")
+    let ps ← getList getPair (← field req "pairs")
+    if w = 0 then throw "w = 0"
+    pure (outE (listJson natJson) (convertLocalIndices w L ps))
+  | "ctr_ids" =>
+    let w ← getNat (← field req "w")
+    let L ← getList getNat (← field req "L")
+    let ps ← getList getPair (← field req "pairs")
+    if w = 0 then throw "w = 0"
+    pure (outE (listJson pairJson) (ctrIdsMpi w L ps))
+  | "ctr_ids_flat" =>
+    let w ← getNat (← field req "w")
+    let L ← getList getNat (← field req "L")
+    let cs ← getList getNat (← field req "cs")
+    if w = 0 then throw "w = 0"
+    pure (Json.mkObj [("asis", outE (listJson pairJson) (ctrIdsMpiFlat w L cs)),
+                      ("intended", outE (listJson pairJson) (ctrIdsMpiFlatIntended w L cs))])
+  | "max" =>
+    let locals ← getList (getList getDist) (← field req "locals")
+    if locals.length = 0 then throw "w = 0"
+    pure (outE distJson (stripedMax locals.length (perRank locals)))
+  | "mean" =>
+    let locals ← getList (getList getRat) (← field req "locals")
+    if locals.length = 0 then throw "w = 0"
+    pure (outE ratJson (stripedMean locals.length (perRank locals)))
+  | "randind" =>
+    let lens ← getList getNat (← field req "lens")
+    let g ← getNat (← field req "g")
+    if lens.length = 0 then throw "w = 0"
+    pure (outE pairJson (randind lens g))
+  | "randind_all" =>
+    -- the whole enumeration of the draw: g = 0 … sum lens - 1
+    let lens ← getList getNat (← field req "lens")
+    if lens.length = 0 then throw "w = 0"
+    pure (listJson (fun g => outE pairJson (randind lens g)) (List.range (max lens.sum 1)))
+  | "distribute" =>
+    let data ← getList getArr (← field req "data")
+    let idx ← getNat (← field req "idx")
+    let owner ← getNat (← field req "owner")
+    if data.length = 0 then throw "w = 0"
+    pure (outE id (distributeFrame data.length (perRank data) idx owner))
+  | "load" =>
+    let w ← getNat (← field req "w")
+    let rows ← getList getArr (← field req "rows")
+    let stride ← getNat (← field req "stride")
+    let kind ← getStr (← field req "kind")
+    if w = 0 ∨ stride = 0 then throw "bad w/stride"
+    let f ← match kind with
+      | "h5" => pure (loadStriped (β := Json) w rows stride)
+      | "npy" => pure (loadNpyStriped (β := Json) w rows stride)
+      | _ => throw "bad kind"
+    let strided := rows.map fun row => (everyNth stride row).length
+    pure (Json.mkObj [
+      ("ranks", listJson (fun r => outE (fun p => Json.mkObj [("lengths", listJson natJson p.1),
+                                                               ("data", listJson id p.2)]) (f r)) (List.range w)),
+      ("strided_lengths", listJson natJson strided)])
+  | "kcenters_serial" =>
+    let n ← getNat (← field req "n")
+    let D ← tableFn n (← getList (getList getDist) (← field req "D"))
+    let k ← getK req
+    let cutoff ← getDist (← field req "cutoff")
+    let fuel := match k with | some k => k + 1 | none => n + 2
+    pure (outE (fun s => Json.mkObj [
+        ("ctrs", listJson natJson s.ctrs),
+        ("dist", listJson distJson (tabulate n s.dist)),
+        ("assign", listJson intJson (tabulate n s.assign))])
+      (serialKcenters n D .inf k cutoff fuel))
+  | "kcenters_mpi" =>
+    let X ← getList (getList getNat) (← field req "X")
+    let n ← getNat (← field req "n")
+    let D ← tableFn n (← getList (getList getDist) (← field req "D"))
+    let k ← getK req
+    let cutoff ← getDist (← field req "cutoff")
+    if X.length = 0 then throw "w = 0"
+    if X.any (fun row => row.any (fun f => f ≥ n)) then throw "frame id out of range"
+    let a := (X.map List.toArray).toArray
+    let lay : Layout := { w := X.length, m := fun r => (a.getD r #[]).size,
+                          X := fun r i => (a.getD r #[]).getD i 0 }
+    let fuel := match k with | some k => k + 1 | none => n + 2
+    pure (outE (fun s => Json.mkObj [
+        ("ctrs", listJson pairJson s.ctrs),
+        ("dist", listJson (fun r => listJson distJson (tabulate (lay.m r) (s.dist r))) (List.range lay.w)),
+        ("assign", listJson (fun r => listJson intJson (tabulate (lay.m r) (s.assign r))) (List.range lay.w))])
+      (mpiKcenters lay D .inf k cutoff fuel))
+  | _ => throw s!"bad-op C14.{op}"
 
 end Drv.C14
